@@ -17,8 +17,8 @@ from props import c07
 
 PID = "C09"
 LEVEL = "exploration"
-RULE = ("Hypothesis draws sorted time axes (regular 5/10/30-day and irregular, 4..60 steps), begin/end dates on / between / before / "
-        "after steps (or omitted), group labelings (ints or strings such as '10','2'; interleaved or blocked; 1..6 groups in quick, up "
+RULE = ("Hypothesis draws sorted time axes (regular 5/10/30-day and irregular, 4..60 steps, stamped at midnight, at noon or at varying times of "
+        "day), begin/end dates - optionally with a time of day - on / between / before / after steps (or omitted), group labelings (ints or strings such as '10','2'; interleaved or blocked; 1..6 groups in quick, up "
         "to 36 thorough) and int16 / float32 cubes of 1..3 pixels with high-variance values. Oracles: get_calibration_indices vs the "
         "set model {i: begin <= t_i <= end} per group; to_linspace vs a dict relabelling; spi() output == SciPy SPI fitted on exactly "
         "the modelled sample set (C07 tie rule) and attrs == str(first/last step of the window); grouped == per-group ungrouped spi() "
@@ -31,13 +31,26 @@ T0 = dt.date(1999, 12, 27)
 
 
 def _axis(case):
-    days = np.cumsum([0] + list(case["gaps"]))
-    return pd.DatetimeIndex([pd.Timestamp(T0) + pd.Timedelta(days=int(d)) for d in days]), days
+    """Axis positions in (possibly fractional) days since T0: whole-day gaps plus an optional time of day per step."""
+    days = np.cumsum([0] + list(case["gaps"])).astype(float)
+    tod = case.get("tod")
+    if tod:
+        days = days + np.array(tod, dtype=float) / 24.0
+    return pd.DatetimeIndex([pd.Timestamp(T0) + pd.Timedelta(hours=int(round(d * 24))) for d in days]), days
 
 
 def _date(case, key):
     off = case.get(key)
-    return None if off is None else str(T0 + dt.timedelta(days=int(off)))
+    if off is None:
+        return None
+    hour = int(case.get(key + "_hour", 0))
+    d = T0 + dt.timedelta(days=int(off))
+    return str(d) if hour == 0 else "%s %02d:00" % (d, hour)
+
+
+def _bound(case, key):
+    off = case.get(key)
+    return None if off is None else off + case.get(key + "_hour", 0) / 24.0
 
 
 def _model_window(days, members, b, e):
@@ -61,11 +74,11 @@ def _cube(case, tix):
 
 def sub_indices(case):
     tix, days = _axis(case)
-    b, e = case.get("begin"), case.get("end")
-    bs = _date(case, "begin") or str(tix[0].date())
-    es = _date(case, "end") or str(tix[-1].date())
-    bb = b if b is not None else int(days[0])
-    ee = e if e is not None else int(days[-1])
+    b, e = _bound(case, "begin"), _bound(case, "end")
+    bs = _date(case, "begin") or str(tix[0])
+    es = _date(case, "end") or str(tix[-1])
+    bb = b if b is not None else days[0]
+    ee = e if e is not None else days[-1]
     labels = case.get("labels")
     if labels is None:
         got = call("get_calibration_indices", get_calibration_indices, tix, (bs, es))
@@ -111,9 +124,9 @@ def sub_spi(case, rec=None):
     tix, days = _axis(case)
     da, arr, ok = _cube(case, tix)
     nt = days.size
-    b, e = case.get("begin"), case.get("end")
-    bb = b if b is not None else int(days[0])
-    ee = e if e is not None else int(days[-1])
+    b, e = _bound(case, "begin"), _bound(case, "end")
+    bb = b if b is not None else days[0]
+    ee = e if e is not None else days[-1]
     labels = case.get("labels")
     if labels is None:
         groups_members = [np.arange(nt)]
@@ -196,6 +209,12 @@ def axis_case(draw, maxgroups, with_cube=True, need_groups=False):
         gaps = [int(kind[1:])] * (nt - 1)
     total = sum(gaps)
     case = {"gaps": gaps, "axis": kind}
+    todk = draw(st.sampled_from(["midnight", "midnight", "noon", "varying"]))
+    if todk == "noon":
+        case["tod"] = [12] * nt
+    elif todk == "varying":
+        case["tod"] = draw(st.lists(st.sampled_from([0, 6, 12, 18, 23]), min_size=nt, max_size=nt))
+    case["axis"] = kind + "/" + todk
     pick = st.one_of(st.none(), st.integers(-20, total + 20), st.sampled_from(list(np.cumsum([0] + gaps))).map(int))
     if draw(st.integers(0, 9)) < 7:
         # mostly usable windows: begin in the first part, end in the last part (on, between or beyond steps)
@@ -205,6 +224,9 @@ def axis_case(draw, maxgroups, with_cube=True, need_groups=False):
     else:
         case["begin"] = draw(pick)
         case["end"] = draw(pick)
+    for key in ("begin", "end"):
+        if case[key] is not None and draw(st.integers(0, 2)) == 0:
+            case[key + "_hour"] = draw(st.sampled_from([6, 12, 13, 23]))
     if need_groups or draw(st.booleans()):
         ng = draw(st.integers(1, min(maxgroups, max(1, nt // 2))))
         pool = draw(st.sampled_from(LABEL_POOLS))
